@@ -20,7 +20,8 @@ EXPLANATION = (
     "state filter is a truth table. remove_deletable_files and clean.clean are path-enumerated: every path to the "
     "unlink passed the re-hash comparison or carries no hash (volatile). Builder.finalize's three guards are folded "
     "over all 64 ReturnCode flag sets. delete_detached's candidate query is checked to keep nodes with products or "
-    "sinks. Decides these mechanisms, not that database memories produced by every history describe files StepUp wrote."
+    "sinks. Decides these mechanisms, not that database memories produced by every history describe files StepUp wrote. "
+    'Also (R-C06-7): can_recycle compares regular and volatile outputs separately (a path that changes role is not recycled with a VOLATILE state) and a new static tree adopts every detached row beneath it.'
 )
 ASSUMPTIONS = [
     "Path.remove/remove_p unlink one file and Path.rmdir refuses non-empty directories (OS semantics)",
